@@ -102,6 +102,10 @@ func (c *conn) rangeAndClean(f func(index int, resultChan chan data)) {
 }
 
 func (c *conn) Transport(ctx context.Context, request []byte) (response []byte, err error) {
+	if len(request) > 65507-8 {
+		// a datagram cannot carry it
+		return nil, core.ErrRequestEntityTooLarge
+	}
 	index := int(atomic.AddInt32(&c.counter, 1) & 0x7fff)
 	resultChan := make(chan data, 1)
 	c.store(index, resultChan)
